@@ -67,6 +67,10 @@ class StmtMixin:
                 elif z3.is_expr(x) and z3.is_bool(x):
                     xa = xa if xa is not None else FALSE
                     xb = xb if xb is not None else FALSE
+                elif z3.is_expr(x) and isinstance(k, str) and (k.startswith("arg:") or k.startswith("ret:") or k.startswith("recv:")):
+                    # recorded call values: on the side that never made the call any value will do
+                    xa = xa if xa is not None else x
+                    xb = xb if xb is not None else x
                 else:
                     continue
             if z3.is_expr(xa):
@@ -681,6 +685,7 @@ class StmtMixin:
         self.iter_stack.pop()
         fr.loops.pop()
         if out is not None:
+            self.check_loop_counters(s, head, out)
             self.check_invariants(s, out, "preserved")
             if v0 is not None:
                 v1, _ = self.variant_value(s, out)
@@ -799,6 +804,16 @@ class StmtMixin:
             pass
         res = self.merge_all([o for o in [exit_st] + ctx.breaks if o is not None])
         return res
+
+    def check_loop_counters(self, s, head, out):
+        """Operation counters are not havoc'd at loop heads: a loop may only perform tracked operations on paths that leave it."""
+        tracked = self.tracked_events() if hasattr(self, "tracked_events") else set()
+        for k, v in out.ghost.items():
+            if isinstance(k, str) and k.startswith("ev:") and k[3:] in tracked:
+                h = head.ghost.get(k)
+                same = (h is None and z3.is_bv_value(z3.simplify(v)) and z3.simplify(v).as_long() == 0) or (h is not None and z3.is_expr(v) and z3.simplify(v - h).eq(z3.BitVecVal(0, 64)))
+                if not same:
+                    raise Unsupported("loop %d performs the tracked operation %s on a path that iterates again (needs a counter invariant)" % (s.get("loop", 0), k[3:]))
 
     def int_of(self, i64, t):
         b = t.bits()
